@@ -76,6 +76,9 @@ def explore(res, scale=1, seed=None):
     if not ok:
         res.tie_broken("extraction", "vm_compute inside Coq disagrees with the extracted evaluator:\n" + slog)
     os.remove(out)
+    # string-backed columns with values of 4 KiB .. 1 MiB, a long value followed by rows of other lengths (direct oracle)
+    from lib import colfam
+    colfam.run_direct(res, "c14long", 64 * scale, seed, builds=("default",))
     lens = sorted(int(k.rsplit("len", 1)[1]) for k in stats if k.startswith("c14.exhaustive.len"))
     res.extra["exhaustive_part"] = ("every history of length <= %d over the 12-operation alphabet of harness/c14.go "
                                     "(appends with and without growth, rewrite and replacement of the uncut tail, "
